@@ -621,3 +621,68 @@ def locals_bound_before_use(ctx, rule='C08-R6', scope='processing'):
     ctx.floor(rule, f'functions analysed for definite assignment ({scope})', nfun, lo[0])
     ctx.floor(rule, f'reads of local names checked ({scope})', reads, lo[1])
     ctx.tables[f'{rule} loop-dependent bindings (information only)'] = info
+
+
+# ------------------------------------------------------------------ C08-R7: regular expressions built from values
+_PATTERN_FUNCS = {'re.compile': 0, 're.search': 0, 're.match': 0, 're.fullmatch': 0, 're.sub': 0, 're.subn': 0,
+                  're.split': 0, 're.findall': 0, 're.finditer': 0}
+_PATTERN_METHODS = {'contains', 'match', 'fullmatch', 'extract', 'extractall', 'findall', 'count'}   # of .str
+_REGEX_BY_FLAG = {'replace', 'split', 'rsplit'}                                                # regex=True only
+
+
+def patterns_are_literals(ctx, rule='C08-R7'):
+    """A regular expression compiled from data or from a parameter (a ceilometer name, an entry of
+    EXCLUDE_FOR_BASE_HEIGHT_CALC) raises re.error as soon as the value holds an unbalanced bracket - a legal name.
+    Patterns on the processing path are literals, or are built from literals and re.escape()d values."""
+    fx = effects(ctx)
+    p = ctx.project
+    funcs = fx.reachable(fx.processing_entries())
+    n = 0
+
+    def literal(t):
+        t = T.peel(t)
+        if T.is_const(t) and isinstance(t[1], str):
+            return True
+        if tag(t) == 'call' and t[1] == ('g', 're.escape'):
+            return True
+        if tag(t) == 'bin' and t[1] in ('+', '%'):
+            return literal(t[2]) and (literal(t[3]) or t[1] == '%')
+        if tag(t) == 'fstr':
+            return all(literal(x) for x in t[1])
+        if tag(t) == 'mcall' and t[2] == 'join' and T.is_const(t[1]) and t[3]:
+            a = t[3][0]
+            if tag(a) in ('list', 'tuple'):
+                return all(literal(x) for x in a[1])
+            if tag(a) == 'lc':
+                return literal(a[2])
+            return False
+        if tag(t) == 'mcall' and t[2] == 'format':
+            return False
+        return False
+    for q in sorted(funcs):
+        for e in fx.own_events(q):
+            if e.kind != 'call':
+                continue
+            c = e.call
+            pat = None
+            head = call_head(e) or ''
+            if head in _PATTERN_FUNCS and tag(c) == 'call' and c[2]:
+                pat = c[2][_PATTERN_FUNCS[head]]
+            elif tag(c) == 'mcall' and (tag(c[1]) == 'attr' and c[1][2] == 'str' or T.contains(c[1], lambda x: tag(x) == 'attr' and x[2] == 'str')):
+                kw = dict(c[4])
+                if c[2] in _PATTERN_METHODS and (c[3] or 'pat' in kw) and kw.get('regex', T.TRUE) != T.FALSE:
+                    pat = c[3][0] if c[3] else kw['pat']
+                elif c[2] in _REGEX_BY_FLAG and kw.get('regex') == T.TRUE and (c[3] or 'pat' in kw):
+                    pat = c[3][0] if c[3] else kw['pat']
+            if pat is None:
+                continue
+            n += 1
+            ctx.check(literal(pat), rule, q, e.node, e.loc(),
+                      f'the regular expression {T.show(pat, maxlen=120)} is built from values that are not literals (and not '
+                      're.escape()d): a name or parameter entry holding "(", "[", "*" or a backslash - all legal - raises '
+                      're.error, which is neither a result nor an AmpycloudError',
+                      instance=f'{q}: pattern of {head or c[2]} is a literal')
+    ctx.tables[f'{rule} pattern-taking calls on the processing path'] = n
+    # the matcher itself is exercised on every run (none on the pinned tree): a literal must pass, a value must not
+    if not literal(C('a|b')) or literal(('p', 'names')) or not literal(('call', ('g', 're.escape'), (('p', 'x'),), ())):
+        raise AnalysisError(rule, 'pattern-literal recogniser broken')
